@@ -402,6 +402,11 @@ func ruleOwnParams(c *Ctx, r *R) {
 			case "handed":
 				if u.argIx < len(u.fn.Params) && isBorrower(c, u.fn, u.fn.Params[u.argIx]) {
 					forms["here"] = true // lent to a helper that only reads it
+				} else if call, isCall := u.in.(*ssa.Call); isCall && universe[u.fn] && neverClosedView(call, 0) {
+					// indexed := stream.Map(s, tag) whose result is only ever read (Next / Peek), never closed, returned,
+					// stored or handed on: the wrapper's ownership is never exercised - a view of s, not a second owner;
+					// who closes s is decided by its other uses
+					details = append(details, "VIEW through "+funcShort(u.fn))
 				} else if universe[u.fn] && u.argIx < len(u.fn.Params) && streamKind(u.fn.Params[u.argIx].Type()) != 0 {
 					forms["handed"] = true
 					details = append(details, "HANDED-ON to "+funcShort(u.fn))
@@ -723,6 +728,12 @@ func ruleOwnGoroutine(c *Ctx, r *R, op ownedParam, key string, uses []ownUse) {
 	}
 	// only the closure (and spawn-loop bookkeeping like len(in)) may touch the stream
 	for _, u := range uses {
+		if u.kind == "handed" {
+			// a never-closed view of the stream (indexed := stream.Map(s, tag)) that only this goroutine reads
+			if call, isCall := u.in.(*ssa.Call); isCall && neverClosedView(call, 0) && viewCapturedOnlyBy(call, clo) {
+				continue
+			}
+		}
 		if u.kind != "captured" {
 			r.violated(key, posOf(u.in), "the owned stream is also used outside the goroutine that owns it")
 			return
@@ -1314,4 +1325,101 @@ func returnSkippingSpawn(fn *ssa.Function, spawn ssa.Instruction, op ownedParam)
 		}
 	}
 	return bad
+}
+
+// neverClosedView: the stream value a wrapper constructor returned is used only through Next / Peek - directly or inside the
+// function literals that capture it - and is never closed, returned, stored, or handed to anything.
+func neverClosedView(call *ssa.Call, depth int) bool {
+	var w ssa.Value = call
+	if tup, ok := call.Type().(*types.Tuple); ok {
+		w = nil
+		_ = tup
+		for _, ref := range refsOf(call) {
+			if ex, ok := ref.(*ssa.Extract); ok && ex.Index == 0 {
+				w = ex
+			}
+		}
+	}
+	if w == nil || streamKind(w.Type()) == 0 {
+		return false
+	}
+	var ok func(v ssa.Value, d int) bool
+	ok = func(v ssa.Value, d int) bool {
+		if d > 3 {
+			return false
+		}
+		uses := usesOfOwned(v)
+		if len(uses) == 0 {
+			return d > 0
+		}
+		for _, u := range uses {
+			switch u.kind {
+			case "next":
+			case "captured":
+				mc, isMC := u.in.(*ssa.MakeClosure)
+				if !isMC {
+					return false
+				}
+				bound := false
+				for _, b := range mc.Bindings {
+					for _, ld := range freeVarLoads(mc, b) {
+						if streamKind(ld.Type()) == 0 {
+							continue
+						}
+						// only the binding that carries v
+						if cell := cellOf(b); cell != nil {
+							carries := false
+							for _, st := range storesTo(cell) {
+								if copiesOf(v)[st.Val] {
+									carries = true
+								}
+							}
+							if !carries {
+								continue
+							}
+						} else if !copiesOf(v)[b] {
+							continue
+						}
+						bound = true
+						if !ok(ld, d+1) {
+							return false
+						}
+					}
+				}
+				if !bound {
+					return false
+				}
+			default:
+				return false
+			}
+		}
+		return true
+	}
+	return ok(w, depth)
+}
+
+// viewCapturedOnlyBy: every use of the stream value the call returned is a capture by function literal clo.
+func viewCapturedOnlyBy(call *ssa.Call, clo *ssa.Function) bool {
+	var w ssa.Value = call
+	if _, ok := call.Type().(*types.Tuple); ok {
+		w = nil
+		for _, ref := range refsOf(call) {
+			if ex, ok := ref.(*ssa.Extract); ok && ex.Index == 0 {
+				w = ex
+			}
+		}
+	}
+	if w == nil {
+		return false
+	}
+	uses := usesOfOwned(w)
+	if len(uses) == 0 {
+		return false
+	}
+	for _, u := range uses {
+		if u.kind != "captured" || u.fn != clo {
+			return false
+		}
+	}
+	return true
 }
